@@ -245,7 +245,17 @@ class DRYRule(BaseLintRule):  # pylint: disable=too-many-instance-attributes
         self._helpers.inline_ignore.clear()
         self._constants = []
         self._file_contents = {}
+        self._reset_storage()
         return violations
+
+    def _reset_storage(self) -> None:
+        """Forget the collected blocks so the next run only sees the files it is shown."""
+        if self._storage is not None:
+            self._storage.close()
+        self._storage = None
+        self._file_analyzer = None
+        self._config = None
+        self._initialized = False
 
 
 ConstantExtractorFn = Callable[[str], list[ConstantInfo]]
